@@ -210,3 +210,10 @@ Example dumps_ok_pins :
   dumps_ok (JDict [(KOther 1, JNull)]) = false /\ dumps_ok (JDict [(KI 1, JNull); (KSub 4 "k", JTuple [JFloat 1 true])]) = true /\
   dumps_ok (JList [JOpaque 1]) = false /\ dumps_ok (JSub 1 (JFloat 1 false)) = true /\ dumps_ok (JSub 1 (JList [])) = false.
 Proof. repeat split. Qed.
+
+(* the text json.dumps writes for keys that are not strings *)
+Example key_text_pins :
+  key_text (KB true) = "true"%string /\ key_text (KB false) = "false"%string /\ key_text KNone = "null"%string /\
+  key_text (KS "pi") = "pi"%string /\ key_text (KSub 4 "pi") = "pi"%string /\
+  jnorm (JDict [(KB true, JNull); (KNone, JTuple [])]) = JDict [(KS "true", JNull); (KS "null", JList [])].
+Proof. repeat split. Qed.
